@@ -1,1 +1,174 @@
 import SwcVerif.Model.Asc
+/-! # C15 — Neurolucida ASC conversion is faithful to the document
+
+Theorems about the lexer/parser model `Model/Asc.lean` (tied to the code by the `c15.convert`
+correspondence on generated, truncated and corrupted documents).
+
+The document grammar (single tree): a branch is a run of points, optionally followed by a split
+`( alt | alt | … )` whose alternatives are branches; an alternative may be empty; a branch that splits
+has at least one point. -/
+namespace C15
+open Asc
+open SwcText (Sci)
+
+structure Pt where
+  x : Sci
+  y : Sci
+  z : Sci
+  r : Sci
+deriving Repr, DecidableEq
+
+inductive Branch where
+  | leaf (pts : List Pt)                                   -- no split; `leaf []` = empty alternative
+  | fork (p : Pt) (pts : List Pt) (alts : List Branch)     -- ≥ 1 point, then `( alt | … )`
+
+def ptToks (p : Pt) : List Tok := [.lp, .float p.x, .float p.y, .float p.z, .float p.r, .rp]
+
+-- the tokens of a branch / of the alternatives of a split (separated by `|`)
+mutual
+def branchToks : Branch → List Tok
+  | .leaf pts => pts.flatMap ptToks
+  | .fork p pts alts => ptToks p ++ pts.flatMap ptToks ++ [.lp] ++ altsToks alts ++ [.rp]
+def altsToks : List Branch → List Tok
+  | [] => []
+  | [a] => branchToks a
+  | a :: b :: rest => branchToks a ++ [.bar] ++ altsToks (b :: rest)
+end
+
+-- number of points
+mutual
+def Branch.count : Branch → Nat
+  | .leaf pts => pts.length
+  | .fork _ pts alts => 1 + pts.length + countL alts
+def countL : List Branch → Nat
+  | [] => 0
+  | a :: rest => a.count + countL rest
+end
+
+/-- rows of a run of points: the first hangs from `parent`, each next one from its predecessor;
+ids are `next, next+1, …` -/
+def chainRows (ty : Int) : List Pt → Int → Nat → List Row
+  | [], _, _ => []
+  | p :: ps, parent, next => ⟨ty, p.x, p.y, p.z, p.r, parent⟩ :: chainRows ty ps (next : Int) (next + 1)
+
+-- **the table the property describes**: one row per point in document order, typed by the label; a
+-- point's parent is the preceding point of its branch, or the last point before the enclosing split for
+-- the first point of each alternative
+mutual
+def rowsOf (ty : Int) : Branch → Int → Nat → List Row
+  | .leaf pts, parent, next => chainRows ty pts parent next
+  | .fork p pts alts, parent, next =>
+    chainRows ty (p :: pts) parent next ++ altsRows ty alts ((next + pts.length : Nat) : Int) (next + pts.length + 1)
+def altsRows (ty : Int) : List Branch → Int → Nat → List Row
+  | [], _, _ => []
+  | a :: rest, parent, next => rowsOf ty a parent next ++ altsRows ty rest parent (next + a.count)
+end
+
+def docToks (label : SwcText.Str) (b : Branch) : List Tok :=
+  [.lp, .lp, .literal label, .rp] ++ branchToks b ++ [.rp]
+
+def labelType (label : SwcText.Str) : Int :=
+  if upper label = "AXON".toList then Gen.Consts.type_axon else Gen.Consts.type_basal_dendrite
+
+def NonEmpty : Branch → Prop
+  | .leaf pts => pts ≠ []
+  | .fork _ _ _ => True
+
+/-- **Conversion is faithful**, at any nesting depth and any branch length: the document
+`( (label) <branch> )` converts to exactly `rowsOf`. -/
+theorem convert_faithful (label : SwcText.Str) (b : Branch)
+    (hl : upper label = "AXON".toList ∨ upper label = "DENDRITE".toList) (hb : NonEmpty b) :
+    convertTokens (docToks label b) = .ok (rowsOf (labelType label) b (-1) 0) := by
+  sorry
+
+/-- one row per point -/
+theorem rows_count (ty : Int) (b : Branch) (parent : Int) (next : Nat) :
+    (rowsOf ty b parent next).length = b.count := by
+  sorry
+
+/-- trailing text after the closing bracket of the document is never looked at (unless the very next
+word is a malformed number) -/
+theorem trailing_ignored (label : SwcText.Str) (b : Branch) (extra : List Tok)
+    (hl : upper label = "AXON".toList ∨ upper label = "DENDRITE".toList) (hb : NonEmpty b)
+    (hx : extra.head? ≠ some .bad) :
+    convertTokens (docToks label b ++ extra) = .ok (rowsOf (labelType label) b (-1) 0) := by
+  sorry
+
+/-! ## layout: comments and colour markers -/
+
+/-- a comment token is skipped in every state of the subtree loop -/
+theorem comment_skipped (ty : Int) (f : Nat) (c : SwcText.Str) (t : List Tok) (flag : Bool) (root cur : Int) (rows : List Row)
+    (ht : t.head? ≠ some .bad) :
+    parseSubtree ty (f + 1) (.comment c :: t) flag root cur rows = parseSubtree ty f t flag root cur rows := by
+  sorry
+
+/-- a colour marker `( Color <word> )` between points changes nothing -/
+theorem color_skipped (ty : Int) (f : Nat) (w col : SwcText.Str) (t : List Tok) (root cur : Int) (rows : List Row)
+    (hw : upper w = "COLOR".toList) (ht : t.head? ≠ some .bad) :
+    parseSubtree ty (f + 2) (.lp :: .literal w :: .literal col :: .rp :: t) true root cur rows
+      = parseSubtree ty f t true root cur rows := by
+  sorry
+
+/-- comments before the document, and between the label and the first point, are skipped -/
+theorem leading_comment_skipped (c : SwcText.Str) (label : SwcText.Str) (b : Branch)
+    (hl : upper label = "AXON".toList ∨ upper label = "DENDRITE".toList) (hb : NonEmpty b) :
+    convertTokens (.comment c :: docToks label b) = .ok (rowsOf (labelType label) b (-1) 0) ∧
+    convertTokens ([.lp, .lp, .literal label, .rp, .comment c] ++ branchToks b ++ [.rp]) = .ok (rowsOf (labelType label) b (-1) 0) := by
+  sorry
+
+/-! ## rejection -/
+
+/-- a point with three numbers, with five numbers, or with a word inside is an error -/
+theorem bad_point_rejected (a b c d e : Sci) (w : SwcText.Str) (t : List Tok) :
+    (∃ er, parseNode (.float a :: .float b :: .float c :: .rp :: t) = .error er) ∧
+    (∃ er, parseNode (.float a :: .float b :: .float c :: .float d :: .float e :: t) = .error er) ∧
+    (∃ er, parseNode (.float a :: .literal w :: t) = .error er) ∧
+    (∃ er, parseNode (.float a :: .float b :: .float c :: .float d :: []) = .error er) := by
+  sorry
+
+/-- an error inside a point is an error of the whole conversion step (nothing is converted in part) -/
+theorem node_error_propagates (ty : Int) (f : Nat) (toks : List Tok) (v : Sci) (rest : List Tok) (flag : Bool)
+    (root cur : Int) (rows : List Row) (er : Err) (ht : toks = .float v :: rest) (h : parseNode toks = .error er) :
+    parseSubtree ty (f + 1) toks flag root cur rows = .error er := by
+  sorry
+
+/-- bracket depth of a token list -/
+def depth : List Tok → Int
+  | [] => 0
+  | .lp :: t => depth t + 1
+  | .rp :: t => depth t - 1
+  | _ :: t => depth t
+
+/-- **a document that ends prematurely is rejected** (partial: stated for the token stream cut anywhere
+inside the tree's points; the general "every accepted stream is bracket-balanced" lemma is the missing
+piece for cuts inside the header) — every proper prefix that still contains the header -/
+theorem truncation_rejected_partial (label : SwcText.Str) (b : Branch) (k : Nat)
+    (hl : upper label = "AXON".toList ∨ upper label = "DENDRITE".toList) (hb : NonEmpty b)
+    (hk : k < (branchToks b ++ [Tok.rp]).length) :
+    ∃ er, convertTokens ([.lp, .lp, .literal label, .rp] ++ (branchToks b ++ [Tok.rp]).take k) = .error er := by
+  sorry
+
+/-! ## the lexer -/
+
+/-- blanks, tabs and line breaks between words are irrelevant -/
+theorem lex_skips_blanks (f : Nat) (ws s : SwcText.Str) (hws : ∀ c ∈ ws, isSpace c = true) :
+    lex (f + 1) (ws ++ s) = lex (f + 1) s := by
+  sorry
+
+/-- brackets and `|` are tokens of their own even without surrounding blanks -/
+theorem lex_structural (f : Nat) (s : SwcText.Str) :
+    lex (f + 1) ('(' :: s) = .lp :: lex f s ∧ lex (f + 1) (')' :: s) = .rp :: lex f s ∧ lex (f + 1) ('|' :: s) = .bar :: lex f s := by
+  sorry
+
+-- non-vacuity / concrete behaviour (kernel-evaluated)
+def p (n : Nat) : Pt := ⟨⟨false, n, 0⟩, ⟨false, 0, 0⟩, ⟨false, 0, 0⟩, ⟨false, 1, 0⟩⟩
+def exB : Branch := .fork (p 1) [] [.fork (p 2) [] [.leaf [p 3], .leaf [p 4]], .leaf [], .leaf [p 5]]
+example : tokens "( (Axon) (1 0 0 1) ( (2 0 0 1) ( (3 0 0 1) | (4 0 0 1) ) | | (5 0 0 1) ) )".toList = docToks "Axon".toList exB := by
+  decide +kernel
+example : (convert "( (Axon) (1 0 0 1) ( (2 0 0 1) ( (3 0 0 1) | (4 0 0 1) ) | | (5 0 0 1) ) )".toList).toOption
+    = some (rowsOf 2 exB (-1) 0) := by decide +kernel
+example : (rowsOf 2 exB (-1) 0).map (·.pid) = [-1, 0, 1, 1, 0] := by decide +kernel
+example : (convert "( (Axon) (1 0 0 1) ( (2 0 0 1) ".toList).toOption = none := by decide +kernel
+example : (convert "( (Axon) ; c\n (1 0 0 1) )".toList).toOption.map List.length = some 1 := by decide +kernel
+
+end C15
